@@ -171,6 +171,17 @@ def cases(c):
                 dcl['c'] = [float(np.real(cr)), float(np.imag(cr))]
             out.append(dcl)
             i += 1
+    # low-power records through the adaptive multitaper (its stop rule must scale with the record power):
+    # amplitude 0.1, c = 1e-3, default and long NFFT
+    for j, (N, NFFT, cplx) in enumerate([(32, None, 0), (48, 1024, 1), (64, 1024, 0), (40, None, 1), (24, 512, 0), (72, 2048, 1)]):
+        for form in ('function', 'class'):
+            d = {'form': form, 'cplx': cplx, 'N': N, 'kind': gen.pick(rng, ['noise', 'ar', 'tones']), 'j': j, 'amp': 0.1,
+                 'c': [1e-3, 0.0], 'directed': True}
+            if form == 'function':
+                d.update(fn='pmtm', p={'NW': 2.5, 'k': 4, 'NFFT': NFFT, 'method': 'adapt'})
+            else:
+                d.update(cls='MultiTapering', p={'NW': 2.5, 'k': 4, 'method': 'adapt'}, NFFT=NFFT, fs=1.0, reuse=None)
+            out.append(d)
     return out
 
 
@@ -291,6 +302,8 @@ def run_case(c, d):
     x = gen.data({'kind': d['kind'], 'N': d['N'], 'cplx': cplx and not d.get('line')}, c.rng(d, 'x'))
     if np.asarray(x).dtype.kind == 'i':
         x = x.astype(float)
+    if d.get('amp'):
+        x = x * d['amp']
     if d.get('line') == 'real-axis':
         x = x.astype(complex)                 # complex-typed samples that all lie on the real axis
     elif d.get('line') == 'imag-axis':
